@@ -7,10 +7,10 @@ head=$(git -C /repo rev-parse HEAD)
 if [ ! -d $WT ]; then git -C /repo worktree add -q --detach $WT HEAD || exit 2; fi
 reset() { git -C $WT checkout -q -- . ; git -C $WT clean -fdq; git -C $WT checkout -q --detach $head; }
 if [ "$what" = refac -o "$what" = all ]; then
-  for d in $(ls /verif/regress/refac/*/*.diff | sort -V); do
-    reset; name=$(basename $(dirname $d))/$(basename $d)
+  for d in $(ls /verif/regress/refac*/*/*.diff | sort -V); do
+    reset; name=$(echo $d | sed "s,/verif/regress/,,")
     if ! git -C $WT apply $d 2>/dev/null; then echo "REFAC $name DOES-NOT-APPLY"; continue; fi
-    out=$(/verif/bin/lachk -property all -repo $WT 2>&1); rc=$?
+    out=$(${LACHK:-/verif/bin/lachk} -property all -repo $WT 2>&1); rc=$?
     if [ $rc -eq 0 ]; then echo "REFAC $name silent"; else echo "REFAC $name FALSE-ALARM $(echo "$out" | tail -1 | sed 's/.*alarmed=//')"; echo "$out" | grep '^ALARM' | cut -c1-230 | sed 's/^/    /'; fi
   done
 fi
@@ -19,7 +19,7 @@ if [ "$what" = seed -o "$what" = all ]; then
     id=$(basename $dir); reset
     prop=$(python3 -c "import json;print(json.load(open('$dir/meta.json'))['property'])")
     if ! git -C $WT apply $dir/patch.diff 2>/dev/null; then echo "SEED $id DOES-NOT-APPLY"; continue; fi
-    out=$(/verif/bin/lachk -property all -repo $WT 2>&1)
+    out=$(${LACHK:-/verif/bin/lachk} -property all -repo $WT 2>&1)
     if echo "$out" | grep -q "^ALARM $prop "; then echo "SEED $id caught by $prop ($(echo "$out" | grep -c "^ALARM $prop ") obligations; all alarmed: $(echo "$out" | tail -1 | sed 's/.*alarmed=//'))"; else echo "SEED $id MISSED by $prop (alarmed: $(echo "$out" | tail -1 | sed 's/.*alarmed=//'))"; fi
   done
 fi
